@@ -64,16 +64,20 @@ func c09Run(p c09Params) func() {
 		}
 		gw.OnConnReq = func(req *knxnet.ConnReq, s *fakesock.Sent) {
 			accept := func() {
-				cur = next
-				next++
+				if !first && p.connMenu && mc.Choose(2, mc.Free) == 1 {
+					// the gateway hands the same channel number out again
+				} else {
+					cur = next
+					next++
+				}
 				epochStart = mc.Now()
 				inSeq = 0
 				connected = true
 				deliver(&knxnet.ConnRes{Channel: cur, Status: 0, Control: knxnet.HostInfo{Protocol: knxnet.UDP4}})
 			}
 			if first {
-				first = false
 				accept()
+				first = false
 				return
 			}
 			connected = false
